@@ -162,6 +162,17 @@ def check_range_end_helper(run, helper):
            "the range end is built from the context id incremented by exactly one on every path (%d increment site(s))" % len(incs), reason="context-range-end")
 
 
+def store_points(body):
+    """[(call, ok_edges)]: where a frame becomes part of the partitions in `body` - a call to Store::insert_frame, or the batch
+    commit of a writer helper that was spliced into this body (e.g. `commit_frame` shared by append and insert_frame)."""
+    pts = []
+    for c in q.live_calls(body, C.INSERT_FRAME):
+        pts.append((c, q.call_result_edges(body, c, ok=True)))
+    for c in q.live_calls(body, C.BATCH_COMMIT):
+        pts.append((c, q.call_result_edges(body, c, ok=True)))
+    return pts
+
+
 # ------------------------------------------------------------------ batches (C04 / C05)
 
 def batch_bodies(run):
@@ -287,6 +298,7 @@ def ttl_time_payload_base(e):
 
 
 CLOCK = "std::time::SystemTime::now"
+CLOCKS = ("std::time::SystemTime::now", "std::time::SystemTime::elapsed", "std::time::Instant::now", "std::time::Instant::elapsed")
 
 
 def clock_fns(run, depth=3):
@@ -297,14 +309,14 @@ def clock_fns(run, depth=3):
             if b.def_ in out or b.kind not in ("Fn", "AssocFn"):
                 continue
             for c in b.calls():
-                if c.bb in b.live_blocks() and (c.fn == CLOCK or c.fn in out):
+                if c.bb in b.live_blocks() and (c.fn in CLOCKS or c.fn in out):
                     out.add(b.def_)
     return out
 
 
 def reads_clock(run, e, cfns=None):
     cfns = cfns if cfns is not None else clock_fns(run)
-    return [y[1] for y in walk(e) if y[0] == "call" and (y[1].fn == CLOCK or y[1].fn in cfns)]
+    return [y[1] for y in walk(e) if y[0] == "call" and (y[1].fn in CLOCKS or y[1].fn in cfns)]
 
 
 def rule_clock_freshness(run):
